@@ -11,6 +11,7 @@ import (
 	"os"
 	"path/filepath"
 	"reflect"
+	"regexp"
 	"sort"
 	"strconv"
 	"strings"
@@ -265,10 +266,10 @@ func valuesFor(kind string, thorough bool) []string {
 	case "bool":
 		return []string{"true", "false"}
 	case "string":
-		vs := []string{"alpha", "beta/2 x"}
+		vs := []string{"alpha", "beta/2 x", "1e3"}
 		if thorough {
-			vs = append(vs, "", "ünï ☃ 世界", "a,b", "123", "true", "null", "~", "a: b #c", " lead", "trail ", "multi\nline",
-				"0x1f", "1e3", "'q\"", "-", "[x]", "{y}", "*a", "&a", "!t", "%p", "@x", "`b", "off", "0o17", "1_000", ".5", "2001-01-01", "<<", "\\")
+			vs = append(vs, ".inf", "-12E+03", "", "ünï ☃ 世界", "a,b", "123", "true", "null", "~", "a: b #c", " lead", "trail ", "multi\nline",
+				"0x1f", "1.5e3", "'q\"", "-", "[x]", "{y}", "*a", "&a", "!t", "%p", "@x", "`b", "off", "0o17", "1_000", ".5", "2001-01-01", "<<", "\\")
 		}
 		return vs
 	case "uint":
@@ -684,6 +685,12 @@ func valueTags(kind, text string) []string {
 	return t
 }
 
+// yamlFloatLike: strings for which the YAML core schema's float rule applies although they are not what Go prints for a
+// float: integer mantissa with an exponent (1e3, -12E+03, 1_0e3) and the spellings of infinity / not-a-number.
+var yamlFloatLikeRE = regexp.MustCompile(`^([-+]?[0-9][0-9_]*[eE][-+]?[0-9]+|[-+]?\.(inf|Inf|INF)|\.(nan|NaN|NAN))$`)
+
+func yamlFloatLike(s string) bool { return yamlFloatLikeRE.MatchString(s) }
+
 func uniq(ss []string) []string {
 	sort.Strings(ss)
 	out := ss[:0]
@@ -778,7 +785,7 @@ func (c *checker) report(s spec, clause string, extra []string, msg string) {
 	tags := uniq(append(c.baseTags(s), extra...))
 	var main []string
 	for _, t := range tags {
-		if !strings.HasPrefix(t, "value:") && !strings.HasPrefix(t, "kind:") {
+		if !strings.HasPrefix(t, "leaf:") && !strings.HasPrefix(t, "kind:") && !strings.HasPrefix(t, "other-leaf-changed:") {
 			main = append(main, t)
 		}
 	}
@@ -845,22 +852,31 @@ func (c *checker) runLoad(s spec) {
 	if !onTarget {
 		clause = "other-option-changed"
 	}
-	if s.Driver == drvViperBound {
-		// history+observation feature: every wrong leaf is one that the file names, whose flag is registered but not
-		// given, and the loaded value is the flag's default (= the option's default, AddFlags takes it from DefaultConfig)
-		explained := true
-		for _, n := range c.w.diffNames(&o.got, &want) {
-			li := c.w.byName[n]
-			l := c.w.leaves[li]
-			flag, has := c.w.flagOf[li]
-			_, given := s.Flags[flag]
-			_, inFile := s.File[n]
-			if !(has && !given && inFile && l.text(&o.got) == l.text(&c.w.defaults)) {
-				explained = false
-			}
+	// Known-defect patterns are recognised per wrong leaf, from the case (history) and from where the wrong value came
+	// from; the pattern tags are attached only when EVERY wrong leaf is explained, so anything else in the same case
+	// still surfaces as an unexplained violation.
+	patterns := map[string]bool{}
+	explained := true
+	for _, n := range c.w.diffNames(&o.got, &want) {
+		li := c.w.byName[n]
+		l := c.w.leaves[li]
+		flag, has := c.w.flagOf[li]
+		_, given := s.Flags[flag]
+		fv, inFile := s.File[n]
+		switch {
+		case s.Driver == drvViperBound && has && !given && inFile && l.text(&o.got) == l.text(&c.w.defaults):
+			// the file names the leaf, its flag is registered but not given, and the loaded value is the flag's
+			// default (= the option's default, AddFlags takes it from DefaultConfig)
+			patterns["file-value-lost-to-default-of-unchanged-bound-flag"] = true
+		case s.FileMode == "full" && inFile && !(has && given) && l.Kind == "string" && yamlFloatLike(fv):
+			patterns["string-value-that-yaml-reads-as-float-written-unquoted"] = true
+		default:
+			explained = false
 		}
-		if explained {
-			extra = append(extra, "file-value-lost-to-default-of-unchanged-bound-flag")
+	}
+	if explained {
+		for p := range patterns {
+			extra = append(extra, p)
 		}
 	}
 	c.report(s, clause, extra, fmt.Sprintf("%s: %s\n file (%s):\n%s", s.Driver, strings.Join(d, "; "), s.FileMode, o.fileText))
@@ -1306,8 +1322,20 @@ func TestCheck(t *testing.T) {
 	var noFlag, notInFile []string
 	perLeafValues := map[string]int{}
 	for li, l := range w.leaves {
-		if l.YAML == "" || l.MS == "" {
+		if l.YAML == "" && l.MS == "" {
+			// excluded from both the decoder and the writer (mapstructure:"-" yaml:"-"): not a file option (RootDir)
 			notInFile = append(notInFile, l.Name)
+			continue
+		}
+		if l.YAML == "" || l.MS == "" {
+			// excluded from only one side: either the writer hides an option the loader accepts, or it writes a key the
+			// loader never reads. There is no documented file key to enumerate; the save->load cases below show the loss.
+			what := "is accepted by the loader (mapstructure) but hidden from the configuration file writer (yaml:\"-\")"
+			if l.MS == "" {
+				what = "is written to the configuration file but excluded from the loader (mapstructure:\"-\")"
+			}
+			c.report(spec{Kind: "roundtrip", Driver: drvLoad, FileMode: "full", File: map[string]string{l.Name: l.text(&w.defaults)}}, "file-sets-option",
+				[]string{"excluded-by-one-tag-only"}, "option "+l.Name+" "+what)
 			continue
 		}
 		def := l.text(&w.defaults)
@@ -1363,7 +1391,7 @@ func TestCheck(t *testing.T) {
 		if fi.Leaf >= 0 {
 			def = w.leaves[fi.Leaf].text(&w.defaults)
 		}
-		vals := nonDefault(kind, def, thorough, vf.Pick(r, 2, 0))
+		vals := nonDefault(kind, def, thorough, vf.Pick(r, 3, 0))
 		if fi.Name == config.FlagRootDir {
 			vals = []string{"sub", "other dir/ünï"} // relative to the case's temp dir
 		}
@@ -1380,12 +1408,12 @@ func TestCheck(t *testing.T) {
 	// (3) save -> load: every single leaf, every pair of leaves, and all leaves at once, non-default
 	var fileLeaves []leaf
 	for _, l := range w.leaves {
-		if l.YAML != "" && l.MS != "" {
+		if l.YAML != "" || l.MS != "" {
 			fileLeaves = append(fileLeaves, l)
 		}
 	}
 	rtVals := func(l leaf) []string {
-		return nonDefault(l.Kind, l.text(&w.defaults), thorough, vf.Pick(r, 2, 0))
+		return nonDefault(l.Kind, l.text(&w.defaults), thorough, vf.Pick(r, 3, 0))
 	}
 	pairs := int64(0)
 	for _, d := range drivers {
@@ -1429,7 +1457,9 @@ func TestCheck(t *testing.T) {
 	for _, d := range drivers {
 		for li, l := range fileLeaves {
 			vs := rtVals(l)
-			c.run(spec{Kind: "load-after-load", Driver: d, FileMode: "sparse", File: map[string]string{l.Name: vs[0]}})
+			if l.YAML != "" {
+				c.run(spec{Kind: "load-after-load", Driver: d, FileMode: "sparse", File: map[string]string{l.Name: vs[0]}})
+			}
 			if flag, ok := w.flagOf[w.byName[l.Name]]; ok {
 				c.run(spec{Kind: "load-after-load", Driver: d, Flags: map[string]string{flag: vs[len(vs)-1]}})
 			}
